@@ -37,6 +37,9 @@ def hash_array(array: np.ndarray) -> int:
         # Hash double precision representation of real valued arrays so that arrays
         # which compare equal irrespective of their data type also hash equal
         array = array.astype(np.float64)
+    if array.dtype == np.float64:
+        # Map negative zeros to positive zeros as these compare equal
+        array = array + 0.0
     if XXHASH_AVAILABLE:
         # If fast Python wrapper of fast xxhash implementation is available use
         # in preference to built in hash function
